@@ -92,6 +92,7 @@ def run_case(c):
     else:  # ascending, unequal steps (denser at low T): the documented differences use the local steps
         T = np.concatenate([[0.0], np.cumsum(rng.uniform(8, 40, 8)), ])
         T = np.concatenate([T, T[-1] + np.cumsum(rng.uniform(40, 90, 12))])
+        T = T * (1000.0 / T[-1])  # the generating model (B0(T) = B0 (1 - cB T), volume grid) is laid out for 0..1000 K
     V0T = V0 * (1 + c["alpha"] * T + 1e-9 * T ** 2)
     E0T = E0 - c["a2"] * T ** 2
     B0T = B0 * (1 - c["cB"] * T)
